@@ -373,6 +373,7 @@ wait:
 		c.Inconclusive("goroutines did not stop within 60 s after the episode")
 	}
 	c.Count("operations", completed.Load())
+	c.Count("_evaluations", completed.Load())
 	c.Count("yield_calls", int64(ycount.Load()))
 	if shared >= 20 {
 		c.NonTrivial()
@@ -462,6 +463,7 @@ func runC08Cyc(c *harness.Ctx, idx int) {
 		c.Violation("result", "C08/cyclic/"+firstWordsOf(v), "%s", v)
 	}
 	c.Count("operations", int64(res.Ops))
+	c.Count("_evaluations", int64(res.Ops))
 	c.Count("yield_calls", int64(res.Yields))
 	c.Sample(map[string]interface{}{"episode": "cyclic families, fresh process", "ops": res.Ops, "yields": res.Yields})
 }
